@@ -188,6 +188,57 @@ async def run_broker(ops: list) -> list:
     return outs
 
 
+async def run_broker_reentrant_cases() -> list:
+    """A consumer that reacts to the END of its topic by using the broker again (seed C08-6).  The task is woken by the end
+    marker that close() / end() sent; whatever it does then -- subscribe to another key, publish on the same key -- must
+    behave as on a broker on which the call has completed: the new subscription receives what is published afterwards and
+    terminates at the next end, the publish starts a new lifetime of the key.  -> [(signature, what)]"""
+    import asyncio
+    from nextline.utils.pubsub.broker import PubSub
+    bad = []
+    for closer in ('close', 'end'):
+        obj = PubSub()
+        got_b, state = [], {}
+
+        async def consumer():
+            async for _ in obj.subscribe('a', last=False):
+                pass
+            # woken by the end marker of 'a'
+            try:
+                await obj.publish('a', 'again')
+                state['latest_a'] = obj.latest('a')
+            except BaseException as e:      # noqa
+                state['publish_a'] = repr(e)
+            async for v in obj.subscribe('b', last=False):
+                got_b.append(v)
+            state['b_ended'] = True
+
+        t = asyncio.ensure_future(consumer())
+        await asyncio.sleep(0)
+        await obj.publish('a', 1)
+        await asyncio.sleep(0)
+        await (obj.close() if closer == 'close' else obj.end('a'))
+        for _ in range(5):
+            await asyncio.sleep(0)
+        await obj.publish('b', 7)
+        for _ in range(5):
+            await asyncio.sleep(0)
+        await obj.end('b')
+        try:
+            await asyncio.wait_for(t, 2)
+        except asyncio.TimeoutError:
+            pass
+        if 'publish_a' in state:
+            bad.append(('broker:publish-after-end-refused', f"after {closer}() ended topic 'a', a consumer woken by the end marker published on 'a': {state['publish_a']}"))
+        elif state.get('latest_a') != 'again':
+            bad.append(('broker:publish-after-end-lost', f"after {closer}() ended topic 'a', a consumer woken by the end marker published 'again' on 'a'; latest('a') = {state.get('latest_a')!r}"))
+        if not state.get('b_ended') or got_b != [7]:
+            bad.append(('broker:subscriber-after-end-waits-forever' if not state.get('b_ended') else 'broker:delivery-after-end-wrong',
+                        f"a consumer woken by the end marker of 'a' ({closer}()) subscribed to 'b'; then 7 was published on 'b' and 'b' was ended: it received {got_b}, "
+                        f"terminated={bool(state.get('b_ended'))}"))
+    return bad
+
+
 # ---------------------------------------------------------------- generators
 
 def gen_item_case(rng, maxlen: int):
@@ -470,6 +521,8 @@ def _run_cases(ctx, item_cases, broker_cases) -> Corr:
                     corr.distinct_nontrivial += 1
             for sig, what in oracle_broker(ops, outs):
                 corr.violations.append(Violation(f'broker:{sig}', what, {'level': 'broker', 'ops': ops, 'observed': outs}))
+        for sig, what in loop.run_until_complete(run_broker_reentrant_cases()):
+            corr.violations.append(Violation(sig, what, {'level': 'broker-reentrant'}))
     finally:
         loop.close()
     corr.evaluations = len(obs_item) + len(obs_broker)
